@@ -2188,7 +2188,126 @@ def exec_eval_history(hist, rp):
 
 
 # ---------------------------------------------------------------------------------
-EXEC = {"tgen": exec_tgen_history, "ni": exec_ni_history, "nldfgen": exec_nldfgen_history, "sdmxgen": exec_sdmxgen_history, "eval": exec_eval_history, "plan": exec_plan_history, "ks": exec_ks_history, "slplan": exec_slplan_history, "an": exec_an_history}
+# feature-list histories (every registered map class; values, derivatives, chunks, odd inputs)
+# ---------------------------------------------------------------------------------
+def gen_fl_history(seed):
+    from cidersim.engines import fsim
+
+    rng = Rng(derive("c09-fl", seed))
+    names = fsim.all_map_names()
+    # every class comes round: the first map of history i is class i mod len(names)
+    first = names[seed % len(names)]
+    maps = [{"cls": first, "mseed": rng.below(10**6)}] + [{"cls": rng.choice(names), "mseed": rng.below(10**6)} for _ in range(rng.randint(1, 4))]
+    ops = []
+    for _ in range(rng.randint(3, 6)):
+        ops.append({"op": rng.weighted([("vals", 4), ("derivs", 4), ("call", 2)]), "x": rng.below(2), "split": rng.choice([None, 2, 3, 7])})
+    return {"kind": "fl", "models": [], "maps": maps, "n": rng.choice([1, 5, 16, 33, 100]), "special": rng.choice([0.0, 0.0, 0.1, 0.3]), "xseed": rng.below(10**6), "ops": ops, "perturb": rng.choice(PERTURBS)}
+
+
+def exec_fl_history(hist, rp):
+    from ciderpress.dft import transform_data as td
+    from cidersim.engines import fsim
+
+    viol = []
+    stats = Counter()
+    dg = Digest()
+
+    def V(key, detail):
+        viol.append({"key": key, "detail": detail, "replay": rp})
+
+    def new_list():
+        return td.FeatureList([fsim.make_map(m["cls"], Rng(derive("c09-fl-map", m["cls"], m["mseed"]))) for m in hist["maps"]])
+
+    n = int(hist["n"])
+    r = np.random.default_rng(hist["xseed"])
+    xs = []
+    for k in range(2):
+        x = np.abs(r.normal(size=(fsim.NRAW, n))) + 0.05
+        x[r.random(x.shape) < 0.2] *= -1.0  # signed raw features exist (dot products, Laplacians)
+        sp = r.random(x.shape) < float(hist["special"])
+        vals = r.choice(np.array([np.nan, 0.0, -0.0, 1e11, -1e11, 1e-300]), size=x.shape)
+        x[sp] = vals[sp]
+        stats["special_input_entries"] += int(sp.sum())
+        xs.append(np.ascontiguousarray(x))
+    dfdy0 = r.normal(size=(len(hist["maps"]), n))
+
+    def do(fl, op, x, lo=0, hi=None):
+        hi = n if hi is None else hi
+        xx = np.ascontiguousarray(x[:, lo:hi])
+        with np.errstate(all="ignore"):
+            if op["op"] == "vals":
+                t = np.zeros((fl.nfeat, hi - lo))
+                fl.fill_vals_(t, xx)
+                return {"vals": t}, xx
+            if op["op"] == "call":
+                return {"vals": np.array(fl(np.ascontiguousarray(xx.T)), copy=True).T}, xx
+            dfdx = np.zeros((fsim.NRAW, hi - lo))
+            dy = np.ascontiguousarray(dfdy0[:, lo:hi])
+            b = adigest(dy)
+            fl.fill_derivs_(dfdx, dy, xx)
+            if adigest(dy) != b:
+                V("input-mutated:FeatureList.fill_derivs_:dfdy", "maps %s" % [m["cls"] for m in hist["maps"]])
+            return {"dfdx": dfdx}, xx
+
+    set_perturb(hist["perturb"])
+    fl = new_list()
+    work = [x.copy() for x in xs]  # the caller's arrays: kept and handed over again, as a training loop does
+    site = "FeatureList"
+    for step, op in enumerate(hist["ops"]):
+        stats["op_fl_" + op["op"]] += 1
+        dg.add(op["op"], op["x"])
+        x = work[op["x"]]
+        b = adigest(x)
+        try:
+            got, _ = do(fl, op, x)
+            exc = None
+        except Exception as ex:
+            got, exc = None, type(ex).__name__
+        if adigest(x) != b:
+            bad = [m["cls"] for m in hist["maps"]]
+            V("input-mutated:%s.%s:x" % (site, op["op"]), "step %d: the caller's feature array was changed (maps %s)" % (step, bad))
+            work[op["x"]] = xs[op["x"]].copy()  # the caller restores its data; later steps are judged on their own
+            x = work[op["x"]]
+        # a fresh list on a fresh copy of the caller's data
+        set_perturb(hist["perturb"] ^ 0x5A)
+        try:
+            ref, _ = do(new_list(), op, xs[op["x"]].copy())
+            rexc = None
+        except Exception as ex:
+            ref, rexc = None, type(ex).__name__
+        set_perturb(hist["perturb"])
+        stats["reference_calls"] += 1
+        if exc or rexc:
+            if exc != rexc:
+                V("history_vs_fresh:%s.%s:raises-%s-fresh-%s" % (site, op["op"], exc, rexc), "step %d" % step)
+            else:
+                stats["requests_refused_by_fresh_lists_too"] += 1
+            continue
+        for name in sorted(ref):
+            ok, why = close(got[name], ref[name], 1e-13)
+            stats["comparisons"] += 1
+            if not ok:
+                V("history_vs_fresh:%s.%s:%s" % (site, op["op"], name), "step %d after %s (maps %s): %s" % (step, [o["op"] for o in hist["ops"][:step]][-3:], [m["cls"] for m in hist["maps"]], why))
+        if op.get("split") and n > 1:
+            k = int(op["split"])
+            cuts = sorted(set(list(range(0, n, max(1, n // k))) + [n]))
+            try:
+                parts = [do(fl, op, x, a0, a1)[0] for a0, a1 in zip(cuts[:-1], cuts[1:])]
+            except Exception as ex:
+                V("chunking:%s.%s:raises-%s" % (site, op["op"], type(ex).__name__), "step %d cuts %s" % (step, cuts[:6]))
+                continue
+            stats["chunked_evals"] += 1
+            for name in sorted(got):
+                cat = np.concatenate([pp[name] for pp in parts], axis=-1)
+                ok, why = close(cat, got[name], 1e-13)
+                stats["comparisons"] += 1
+                if not ok:
+                    V("chunking:%s.%s:%s" % (site, op["op"], name), "step %d cuts %s: %s" % (step, cuts[:6], why))
+    return viol, stats, dg
+
+
+# ---------------------------------------------------------------------------------
+EXEC = {"tgen": exec_tgen_history, "ni": exec_ni_history, "nldfgen": exec_nldfgen_history, "sdmxgen": exec_sdmxgen_history, "eval": exec_eval_history, "plan": exec_plan_history, "ks": exec_ks_history, "slplan": exec_slplan_history, "an": exec_an_history, "fl": exec_fl_history}
 
 
 def gen_history(kind, seed):
@@ -2202,6 +2321,8 @@ def gen_history(kind, seed):
         h = gen_ks_history(seed)
     elif kind == "an":
         h = gen_an_history(seed)
+    elif kind == "fl":
+        h = gen_fl_history(seed)
     else:
         h = gen_eval_history(seed)
     r = Rng(derive("c09-flags", kind, seed))
@@ -2473,6 +2594,21 @@ def plan(tier, seed, args):
         cases.append({"hkind": "ks", "seed": derive(seed, PROP, "ks", i) % 10**9})
     for i in range(n_ev // 2):
         cases.append({"hkind": "an", "seed": derive(seed, PROP, "an", i) % 10**9})
+    for i in range(n_ev):
+        cases.append({"hkind": "fl", "seed": derive(seed, PROP, "fl", i) % 10**9})
+    # a wall-time budget that runs out (a loaded machine) must cut every kind of history
+    # alike, not the kinds that happen to be planned last: proportional interleaving
+    groups = {}
+    for c_ in cases:
+        groups.setdefault(c_["hkind"], []).append(c_)
+    total = len(cases)
+    keyed = []
+    for kind_, lst in sorted(groups.items()):
+        for pos, c_ in enumerate(lst):
+            keyed.append(((pos + 0.5) / len(lst), kind_, pos, c_))
+    keyed.sort(key=lambda t: t[:3])
+    cases = [t[3] for t in keyed]
+    assert len(cases) == total
     # enumerated fault points (not seeded): the set-up phase of the call in quick, the whole
     # call in thorough
     if args.cases is None:
